@@ -286,7 +286,7 @@ PROPS.update({
         ],
         "jobs": {
             "quick": [{"test": "TestC17", "shards": 10, "checks": 100000, "timeout": 600}, {"test": "TestC17Bulk", "shards": 6, "checks": 36, "timeout": 600}],
-            "thorough": [{"test": "TestC17", "shards": 12, "checks": 1200000, "timeout": 3000}, {"test": "FuzzRapid", "shards": 1, "checks": 0, "rapid": False, "fuzztime": "120s", "parallel": 6, "timeout": 1500}, {"test": "TestC17Bulk", "shards": 4, "checks": 1200, "timeout": 3000}],
+            "thorough": [{"test": "TestC17", "shards": 12, "checks": 600000, "timeout": 3000}, {"test": "FuzzRapid", "shards": 1, "checks": 0, "rapid": False, "fuzztime": "120s", "parallel": 6, "timeout": 1500}, {"test": "TestC17Bulk", "shards": 4, "checks": 1200, "timeout": 3000}],
         },
     },
 })
